@@ -106,6 +106,9 @@ def b_str(ex, st, args, kwargs, cx, node):
     t = o.tyof(st, v)
     if t == "str":
         yield st, v
+    elif t in ("ref:IPv4Address", "ref:IPv4Network"):
+        st = st.clone()
+        yield st, o.str_(ip_text(ex, st, v, t[4:]))
     else:
         yield st, o.str_(ex.text_of(st, v, "s"))
 
@@ -246,6 +249,139 @@ BUILTIN_FUNCS = {
 }
 BUILTIN_CTORS = {}
 CLASS_CALLS = {}
+
+
+# ====================================================================== ipaddress (IPv4Address / IPv4Network)
+# The parsers are external: `ip<kind>_ok(text)` says whether the constructor accepts the text, `ip<kind>_text(text)` is the
+# canonical text of what it parsed (str(obj)), `ipnet_prefixlen(text)` the prefix length.  The object is a fresh
+# reference that remembers the text it was parsed from ($ipsrc).
+trusted("ipaddress.IPv4Address/IPv4Network", "the constructor applied to text raises a ValueError exactly when ip<kind>_ok(text) fails; str(obj) is a "
+        "non-empty canonical text that parses again to the same canonical text (and, for networks, the same prefix length); 0 <= prefixlen <= 32; "
+        "non-text arguments (int, bytes, tuples) are outside the model")
+
+
+def ip_funs(w, kind):
+    return (w.fun("ip%s_ok" % kind, "str", "bool"), w.fun("ip%s_text" % kind, "str", "str"), w.fun("ipnet_prefixlen", "str", "int"))
+
+
+def b_ipv4(kind, cls):
+    def f(ex, st, args, kwargs, cx, node):
+        o, w = ex.o, ex.w
+        if len(args) != 1 or kwargs or o.tyof(st, args[0]) != "str":
+            raise Unsupported("%s of a value that is not known to be text" % cls)
+        ok = ip_funs(w, kind)[0]
+        s = o.s(args[0])
+        a = st.clone()
+        a.assume(ok(s))
+        if o.feasible(a):
+            r = a.new_ref(cls)
+            a.wr("$ipsrc", r, args[0].e)
+            yield a, o.ref(r, cls)
+        b = st.clone()
+        b.assume(z3.Not(ok(s)))
+        if o.feasible(b):
+            yield from ex.raise_new(b, "ValueError")
+    return f
+
+
+def ip_text(ex, st, v, cls):
+    """str(IPv4Address / IPv4Network object) with the canonical-form laws"""
+    w, V = ex.w, ex.w.V
+    kind = "addr" if cls == "IPv4Address" else "net"
+    ok, text, plen = ip_funs(w, kind)
+    src = V.s(st.rd("$ipsrc", ex.o.r(v)))
+    t = text(src)
+    st.assume(z3.And(ok(t), text(t) == t, z3.Length(t) > 0))
+    if kind == "net":
+        st.assume(plen(t) == plen(src))
+    return t
+
+
+
+
+trusted("urllib.parse.urlparse", "applied to text: raises a ValueError exactly when url_ok(text) fails, otherwise returns a result whose .scheme is the "
+        "text url_scheme(text); the other components and non-text arguments are outside the model")
+
+
+def b_urlparse(ex, st, args, kwargs, cx, node):
+    o, w = ex.o, ex.w
+    if len(args) != 1 or kwargs or o.tyof(st, args[0]) != "str":
+        raise Unsupported("urlparse of a value that is not known to be text")
+    ok = w.fun("url_ok", "str", "bool")
+    s = o.s(args[0])
+    a = st.clone()
+    a.assume(ok(s))
+    if o.feasible(a):
+        r = a.new_ref("ParseResult")
+        a.wr("$ipsrc", r, args[0].e)
+        yield a, o.ref(r, "ParseResult")
+    b = st.clone()
+    b.assume(z3.Not(ok(s)))
+    if o.feasible(b):
+        yield from ex.raise_new(b, "ValueError")
+
+
+BUILTIN_FUNCS["urlparse"] = b_urlparse
+
+
+trusted("re.compile / socket.gethostbyname", "re.compile(text) is a pattern object determined by the text (an object that exists before the call: patterns are "
+        "compiled once, at class creation, and compared only through regex_match); gethostbyname(text) raises an OSError exactly when "
+        "dns_ok(text) fails and returns the text dns_name(text) otherwise (resolution is treated as a function of the name during one validation)")
+
+
+def x_re_compile(ex, st, args, kwargs, cx):
+    o, w = ex.o, ex.w
+    if len(args) != 1 or kwargs or o.tyof(st, args[0]) != "str":
+        raise Unsupported("re.compile form")
+    r = w.fun("pattern_ref", "str", "int")(o.s(args[0]))
+    st = st.clone()
+    st.assume(z3.And(r > 0, r <= st.alloc, w.cls_of(r) == w.CLS["Pattern"]))
+    yield st, o.ref(r, "Pattern")
+
+
+trusted("os.path.isabs/join/exists/isdir/isfile", "isabs and join (two arguments) are deterministic total functions of their text arguments (uninterpreted); "
+        "a path names a regular file (a present cell of the ghost file system), a directory (ghost set isdir) or nothing: exists = present or isdir, "
+        "isfile = present and not isdir; special files, links and permissions on the way are outside the model")
+
+
+def path_query(w, st, name, p):
+    if name == "isabs":
+        return w.fun("path_isabs", "str", "bool")(p)
+    present = w.OptBytes.is_present(z3.Select(st.g("fs"), p))
+    isdir = z3.Select(st.g("isdir"), p)
+    return {"exists": z3.Or(present, isdir), "isdir": isdir, "isfile": z3.And(present, z3.Not(isdir))}[name]
+
+
+def x_path_query(ex, st, args, kwargs, name):
+    if len(args) != 1 or kwargs or ex.o.tyof(st, args[0]) != "str":
+        raise Unsupported("os.path.%s form" % name)
+    yield st, ex.o.bool_(path_query(ex.w, st, name, ex.o.s(args[0])))
+
+
+def x_path_join(ex, st, args, kwargs):
+    if len(args) != 2 or kwargs or any(ex.o.tyof(st, a) != "str" for a in args):
+        raise Unsupported("os.path.join form")
+    t = ex.w.fun("path_join", "str", "str", "str")(ex.o.s(args[0]), ex.o.s(args[1]))
+    st.terms.append(("str", t))
+    yield st, ex.o.str_(t)
+
+
+def x_gethostbyname(ex, st, args, kwargs, cx):
+    o, w = ex.o, ex.w
+    if len(args) != 1 or kwargs or o.tyof(st, args[0]) != "str":
+        raise Unsupported("gethostbyname form")
+    ok = w.fun("dns_ok", "str", "bool")
+    s = o.s(args[0])
+    a = st.clone()
+    a.assume(ok(s))
+    if o.feasible(a):
+        yield a, o.str_(w.fun("dns_name", "str", "str")(s))
+    b = st.clone()
+    b.assume(z3.Not(ok(s)))
+    if o.feasible(b):
+        yield from ex.raise_new(b, "OSError")
+BUILTIN_FUNCS["IPv4Address"] = b_ipv4("addr", "IPv4Address")
+BUILTIN_FUNCS["IPv4Network"] = b_ipv4("net", "IPv4Network")
 
 
 # ====================================================================== str / bytes methods
@@ -639,6 +775,12 @@ EXTERNALS = {
     "os.path.realpath": x_pathfun("realpath"),
     "os.path.expanduser": x_expanduser, "os.urandom": x_urandom, "os.environ.get": x_environ_get,
     "base64.b64encode": x_b64encode, "base64.b64decode": x_b64decode, "warnings.warn": x_warn,
+    "re.compile": x_re_compile, "socket.gethostbyname": x_gethostbyname,
+    "os.path.isabs": lambda ex, st, args, kwargs, cx: x_path_query(ex, st, args, kwargs, "isabs"),
+    "os.path.exists": lambda ex, st, args, kwargs, cx: x_path_query(ex, st, args, kwargs, "exists"),
+    "os.path.isdir": lambda ex, st, args, kwargs, cx: x_path_query(ex, st, args, kwargs, "isdir"),
+    "os.path.isfile": lambda ex, st, args, kwargs, cx: x_path_query(ex, st, args, kwargs, "isfile"),
+    "os.path.join": lambda ex, st, args, kwargs, cx: x_path_join(ex, st, args, kwargs),
 }
 
 
